@@ -10,6 +10,8 @@ import hashlib
 import itertools
 import json
 import os
+import shutil
+import tempfile
 import re
 
 from .. import schemalab as sl
@@ -264,6 +266,68 @@ def check_cli(case) -> Res:
     return Res(st or f"exit{q.exit_code}", nontrivial=("cli", cmd, cclass, schema, fix, st), violations=viol, transitions=1)
 
 
+# ---------------------------------------------------------------- schema life cycle (histories)
+LIFE = "LIFE"
+LIFE_V1 = [("STATUS", '"ACTIVE"', "REQ∧ENUM[ACTIVE,DONE]"), ("NAME", '"x"', "REQ")]
+LIFE_V2 = [("STATUS", '"OPEN"', "REQ∧ENUM[OPEN,CLOSED]"), ("NAME", '"x"', "REQ"), ("OWNER", '"o"', "REQ")]
+LIFE_DOC = inst("LIFE:\n  STATUS::ACTIVE\n  NAME::n\n")          # valid under v1, two errors under v2
+LIFE_EVENTS = ["install_v1", "install_v2", "delete", "go_away", "come_back"]
+_AWAY = {}
+
+
+def check_lifecycle(seq) -> Res:
+    """Explicit-state walk: state = (cwd in {home, away}, schema file in {absent, v1, v2}); after EVERY event of the sequence the real
+    tools are asked and must answer what the state says: UNVALIDATED when no schema of that name exists where the tools look,
+    VALIDATED under v1, INVALID under v2 - whatever the same process answered earlier."""
+    L = sl.lab()
+    home = L["dir"]
+    if "d" not in _AWAY:
+        _AWAY["d"] = tempfile.mkdtemp(prefix="vt-c10away-", dir="/dev/shm")
+    path = os.path.join(home, "specs", "schemas", "life.oct.md")
+    os.chdir(home)
+    if os.path.exists(path):
+        os.unlink(path)
+    L["installed"].pop(LIFE, None)
+    cwd, file = "home", "absent"
+    viol = []
+    steps = 0
+    trace = []
+    for ev in seq:
+        if ev == "install_v1":
+            open(path, "w", encoding="utf-8").write(sl.schema_text(LIFE, LIFE_V1, "REJECT"))
+            file = "v1"
+        elif ev == "install_v2":
+            open(path, "w", encoding="utf-8").write(sl.schema_text(LIFE, LIFE_V2, "REJECT", version="2.0"))
+            file = "v2"
+        elif ev == "delete":
+            if os.path.exists(path):
+                os.unlink(path)
+            file = "absent"
+        elif ev == "go_away":
+            os.chdir(_AWAY["d"])
+            cwd = "away"
+        elif ev == "come_back":
+            os.chdir(home)
+            cwd = "home"
+        visible = file if cwd == "home" else "absent"
+        want = {"absent": "UNVALIDATED", "v1": "VALIDATED", "v2": "INVALID"}[visible]
+        trace.append(ev)
+        cs = dict(tool="lifecycle", events=list(trace), state=[cwd, file])
+        assert schema_exists(LIFE) == (visible != "absent")
+        r = sl.call("v", content=LIFE_DOC, schema=LIFE)
+        w = sl.call("w", target_path=os.path.join(home, "work", f"life{os.getpid()}.oct.md"), content=LIFE_DOC, schema=LIFE, corrections_only=True)
+        steps += 2
+        for tool, res in (("validate", r), ("write", w)):
+            got = res.get("validation_status")
+            if got != want:
+                viol.append(dict(descriptor=f"lifecycle:{tool}:{got}-but-schema-is-{visible}", case=cs, observed=(got, res.get("validation_errors"), res.get("schema_version")),
+                                 expected=f"{want}: the schema file is {file}, cwd is {cwd}"))
+        if visible != "absent" and r.get("schema_version") not in (None, {"v1": "1.0", "v2": "2.0"}[visible]):
+            viol.append(dict(descriptor=f"lifecycle:validate:schema_version-of-another-text", case=cs, observed=r.get("schema_version"), expected={"v1": "1.0", "v2": "2.0"}[visible]))
+    os.chdir(home)
+    return Res("ok" if not viol else "violations", nontrivial=tuple(seq), violations=viol[:3], transitions=steps)
+
+
 def run(ctx):
     flags = list(itertools.product([False, True], repeat=5))
     contents = sorted(CONTENTS)
@@ -280,14 +344,20 @@ def run(ctx):
     cli = [("validate", c, s, fx) for c in contents for s in (None, "META", GEN, "NOPE", "meta", "../META", "SKILL") for fx in (False, True)] + \
           [("write", c, s, False) for c in contents for s in (None, "META", GEN, "NOPE", "meta")]
     ctx.explore("cli", cli, check_cli, chunk=10)
+    from ..explore import Sequences
+    ctx.explore("schema_lifecycle", Sequences(LIFE_EVENTS, 4 if ctx.quick else 5, 1), check_lifecycle, chunk=20)
     sl.cleanup()
+    if _AWAY.get("d"):
+        shutil.rmtree(_AWAY["d"], ignore_errors=True)
 
 
 def replay(ctx, rp):
     c = rp["case"]
     try:
         t = c["tool"]
-        if t == "validate":
+        if t == "lifecycle":
+            r = check_lifecycle(tuple(c["events"]))
+        elif t == "validate":
             r = check_validate((c["content"], c["schema"], c["profile"], (c["fix"], c["diff_only"], c["compact"], c["grammar_hint"], c["debug_grammar"])))
         elif t == "write":
             r = check_write((c["content"], c.get("schema"), c["mode"], c["lenient"], c["corrections_only"], c["parse_error_policy"], c["grammar_hint"], c["debug_grammar"]))
